@@ -9,6 +9,8 @@ import numpy as np
 from vlib import core
 from vlib.core import q, qmat, qvec, nat, coqbool, coqlist
 
+IMPORTS_GEN = ("From Coq Require Import List QArith.\nFrom RV Require Import base.Num base.LA model.Online run.RunC10 run.RunGenC10.\n"
+               "Import ListNotations.\nOpen Scope Q_scope.")
 IMPORTS = ("From Coq Require Import List QArith.\nFrom RV Require Import base.Num base.LA model.Online run.RunC10.\n"
            "Import ListNotations.\nOpen Scope Q_scope.")
 TRUSTED = [
@@ -339,6 +341,12 @@ def nontrivial(c, o):
     return n_updates(c) >= 2 and any(v != 0 for r in last["W"] for v in r)
 
 
+def pregen(ctx):
+    """tie (T): re-translate readouts/base.py, rls.py, lms.py of the tree under test into coq/gen/Gen_online.v"""
+    from vlib import gen
+    return gen.pregen_units(["online"])
+
+
 def correspondence(ctx):
     rng = ctx.rng("corr")
     cases = gen_cases(rng, ctx.n(200, 1500))
@@ -365,7 +373,14 @@ def correspondence(ctx):
         if nontrivial(c, o):
             nt.add(repr(jsonable(c)))
     failing, err = core.run_cases(ctx.pid, IMPORTS, terms, chunk=40)
-    return {"evaluations": len(cases), "distinct_nontrivial": len(nt),
+    # the kernels GENERATED from the current source (tie T: rls.py, lms.py, readouts/base.py), run at Q inside the same train loop
+    from vlib import gen
+    gfail, gerr, ngen = gen.rerun_generated(ctx.pid, IMPORTS_GEN, terms, {"chk_rls ": "chk_gen_rls ", "chk_lms ": "chk_gen_lms "}, chunk=40)
+    dist["generated-kernel runs"], dist["generated-kernel disagreements"] = ngen, len(gfail)
+    if gerr:
+        err = (err or "") + "generated kernels: " + gerr
+    failing = sorted(set(failing) | set(gfail))
+    return {"evaluations": len(cases) + ngen, "distinct_nontrivial": len(nt),
             "rule": "seeded scenarios: RLS / LMS / FORCE(rule) nodes, bias on/off, input dim 1-3, output dim 1-2, learn_every 1-4, "
                     "1-3 successive train calls of 1-6 steps (outputs, Wout, bias, P, schedule cursor compared after every call), in about a third "
                     "of them 1-2 RAISING calls (targets forgotten, wrong target / input width) inserted before / between the valid ones "
